@@ -16,7 +16,7 @@ const verifC07EpochLen = 432000
 // its epoch (epoch*432000 <= slot < (epoch+1)*432000) and the slots of one epoch are
 // non-increasing newest-first (the order in which the indexer appends them).
 func VerifC07Slot() {
-	w := verifC07Build(1, verifParam("max_epochs", 2), verifParam("max_entries", 2), verifParam("all_splits", 0) == 1)
+	w := verifC07Build(1, verifParam("max_epochs", 2), verifParam("max_entries", 2), verifParam("all_splits", 0))
 	N := len(w.hist)
 
 	before := verifU64("before")
